@@ -11,9 +11,14 @@
      -> ( ( result done-at ).. ) receive-count [ "fuel" ]   done-at: index of the step during which
         the access finished, -1 when it is still pending after the last step
    WSGI:  "w" ct ( piece.. ) ( ( akind k chunk_size ) .. ) jtable ftable
-     -> ( result.. ) ( requested read sizes.. ) *)
+     -> ( result.. ) ( requested read sizes.. )
+   WSGI with failing reads (ReadFault.v):
+          "f" ct ( item.. ) ( ( akind k chunk_size ) .. ) jtable ftable
+     item    ( 0 bytes ) this read() call returns (at most chunk_size bytes of) the piece;
+             ( 1 ) this read() call raises (TimeoutError, an OSError)
+     -> ( result.. ) ( requested read sizes, failing calls included .. ) *)
 From Coq Require Import List NArith ZArith Bool.
-From Baize Require Import Lib.Wire C10.Model.
+From Baize Require Import Lib.Wire C10.Model C10.ReadFault.
 Import ListNotations.
 
 Fixpoint list_eqb (a b : list N) : bool :=
@@ -115,6 +120,19 @@ Definition rd_wkind (x : sx) : wkind :=
   | _ => WClose
   end.
 
+Definition rd_fitem (x : sx) : option bytes :=
+  match x with
+  | Lst (Num 0%Z :: Str b :: _) => Some b
+  | _ => None
+  end.
+
+Definition show_fout (o : fout) : sx :=
+  match o with
+  | FVal v => show_outcome (Val v)
+  | FExn e => show_outcome (Exn e)
+  | FReadErr => Lst [tag (lit "exc"); Str (lit "TimeoutError")]
+  end.
+
 Definition run_case (c : list sx) : list sx :=
   match c with
   | Str mode :: ctx :: Lst xs :: Lst steps :: Lst jt :: Lst ft :: _ =>
@@ -129,6 +147,9 @@ Definition run_case (c : list sx) : list sx :=
       else if list_eqb mode (lit "w") then
         let '(st, os) := wexec ct jp fp (map rd_wkind steps) (winit (map sx_s xs)) in
         [Lst (map show_outcome os); Lst (map of_N (w_reads st))]
+      else if list_eqb mode (lit "f") then
+        let '(st, os) := fexec ct jp fp (map rd_wkind steps) (finit (map rd_fitem xs)) in
+        [Lst (map show_fout os); Lst (map of_N (f_reads st))]
       else [tag (lit "badcase")]
   | _ => [tag (lit "badcase")]
   end.
